@@ -492,7 +492,7 @@ def run_unit(u, scratch, probes, tier):
     res["info"] = {k: info[k] for k in ("origin", "sha256", "rewrites", "inserted", "nloops", "tags", "extractions") if k in info}
     g = u["_group"]
     harness = u.get("harness")
-    entry = harness or u.get("entry")
+    entry = u.get("entry") or harness
     a_gb, b_gb = os.path.join(wdir, "a.gb"), os.path.join(wdir, "b.gb")
     cc = ["goto-cc"]
     if g.engine == "G":
